@@ -4,7 +4,11 @@
 // No behaviour of the package is changed.
 package app
 
-import "unsafe"
+import (
+	"runtime"
+	"time"
+	"unsafe"
+)
 
 // verifSyncTrack is a track name no upload can have (it contains a slash).
 const verifSyncTrack = "verif/sync"
@@ -13,6 +17,8 @@ const verifSyncTrack = "verif/sync"
 // recSegCh before the call: it sends cap(recSegCh)+1 messages of a track that is not registered
 // (receivedSegData returns at once for those); the last send can only complete after the first of
 // them was taken out of the channel, which happens after everything queued before was processed.
+// It then waits until the queue is empty and a moment longer, so that the goroutine is not still
+// looking up one of these messages in trDatas (an unlocked map read, see C19) when the caller goes on.
 func (v *VerifReceiver) Sync(chName string) bool {
 	ch, ok := v.R.channelMgr.GetChannel(chName)
 	if !ok {
@@ -21,6 +27,10 @@ func (v *VerifReceiver) Sync(chName string) bool {
 	for i := 0; i < cap(ch.recSegCh)+1; i++ {
 		ch.recSegCh <- recSegData{name: verifSyncTrack}
 	}
+	for len(ch.recSegCh) > 0 {
+		runtime.Gosched()
+	}
+	time.Sleep(300 * time.Microsecond)
 	return true
 }
 
